@@ -317,6 +317,21 @@ def c13_r1(ctx):
             ctx.viol('%s|slot-end' % aw.path, t['at'], 'a window slot is created with end = `%s` (must be start + size)' % en, None)
     if not news:
         raise AnchorMissing('alloc_windows does not call Slot::new')
+    # window starts stay on the slide grid: every product that rounds a distance down to a number of slides
+    # (`x / slide * m`) must multiply by the same `slide` again
+    for blk in aw.blocks:
+        for s_ in blk['s']:
+            if s_['k'] == 'assign' and s_['rv']['r'] == 'bin' and s_['rv']['op'] in ('Mul', 'MulWithOverflow'):
+                d = sym.rvalue(s_['rv'])
+                a_, b_ = strip(d[2]), strip(d[3])
+                for x_, y_ in ((a_, b_), (b_, a_)):
+                    if x_[0] == 'bin' and x_[1] == 'Div':
+                        divisor, mult = render(strip(x_[3])), render(y_)
+                        ctx.inst('alloc_windows|grid|%s' % s_['at'], {'rounded by': divisor, 'multiplied by': mult})
+                        if divisor != mult:
+                            ctx.viol('%s|off-grid' % aw.path, s_['at'],
+                                     'alloc_windows skips empty windows by (distance / %s) * %s: the next window start leaves the slide grid, '
+                                     'so elements of a key that was idle fall between windows and are assigned to no result' % (divisor, mult), None)
     starts = [render(strip(sym.rvalue(s['rv']))) for blk in aw.blocks for s in blk['s'] if s['k'] == 'assign' and 'slide' in render(strip(sym.rvalue(s['rv'])))]
     ctx.inst('alloc_windows|next_start', {'expressions mentioning slide': starts[:4]})
     if not any('self.slide' in x and ('.start' in x) for x in starts) and not any('slide' in render(strip(sym.operand(a))) for _, t in aw.calls() for a in t['args']):
